@@ -1,7 +1,7 @@
 #!/usr/bin/env python3
 """mutation testing of the C20 check (not run by any check; a development aid):
     python3 harness/sched/mutants_c20.py <verif worktree> [mutant ids...]
-Each mutant = scratch copy of /repo's sources under /var/tmp with one edit of src/pdsh/dsh.c, then
+Each mutant = scratch copy of /repo's sources under /var/tmp with one edit of src/pdsh/dsh.c (or of the file a mutant names), then
 `VERIF_REPO=<copy> ./check.py C20 --tier quick`; expected: exit 1 with a VIOLATION line."""
 import os
 import shutil
@@ -54,6 +54,30 @@ MUTS = {
     # the copy personality has its own worker
     "m28-rcp-blind-state-write": [("    a->start = time(NULL);\n    dsh_mutex_lock(&thd_mutex);\n    if (a->state == DSH_CANCELED)\n        result = DSH_CANCELED;  /* canceled by ^C ^Z before we got to run */\n    else\n        a->state = DSH_RCMD;",
                                    "    a->start = time(NULL);\n    dsh_mutex_lock(&thd_mutex);\n    a->state = DSH_RCMD;")],
+    # --- the process side of forwarding (src/common/pipecmd.c, src/modules/execcmd.c; harness/execsig_harness.c) ---
+    # seeded change C20-11: the group of the child, which exists only after its setsid()
+    "m29-kill-process-group": [("src/common/pipecmd.c", "    return (kill (p->pid, signo));", "    return (kill (-p->pid, signo));")],
+    # the group the child is in NOW: before its setsid() that is the group of pdsh itself
+    "m30-killpg-current-group": [("src/common/pipecmd.c", "    return (kill (p->pid, signo));", "    return (killpg (getpgid (p->pid), signo));")],
+    "m31-signal-needs-stderr-fd": [("src/modules/execcmd.c", "    return (pipecmd_signal ((pipecmd_t) arg, signum));",
+                                    "    if (fd < 0)\n        return (-1);\n    return (pipecmd_signal ((pipecmd_t) arg, signum));")],
+    "m32-child-ignores-sigint": [("src/common/pipecmd.c", "        setsid ();\n", "        setsid ();\n        signal (SIGINT, SIG_IGN);\n")],
+    # --- what pdsh inherits (harness/sigthread_harness.c <inherited>) ---
+    # seeded change C20-12: a signal inherited as ignored is left out of the sigwait set
+    "m33-ignored-not-waited-for": [("    sigaddset (&set, SIGINT);\n    sigaddset (&set, SIGTSTP);\n",
+                                    "    { struct sigaction sa;\n      if (sigaction (SIGINT, NULL, &sa) < 0 || sa.sa_handler != SIG_IGN) sigaddset (&set, SIGINT);\n"
+                                    "      if (sigaction (SIGTSTP, NULL, &sa) < 0 || sa.sa_handler != SIG_IGN) sigaddset (&set, SIGTSTP); }\n")],
+    # a signal inherited as blocked is "not ours"
+    "m34-blocked-not-waited-for": [("    sigaddset (&set, SIGINT);\n    sigaddset (&set, SIGTSTP);\n",
+                                    "    { sigset_t cur;\n      pthread_sigmask (SIG_BLOCK, NULL, &cur);\n      sigaddset (&set, SIGINT);\n"
+                                    "      sigaddset (&set, SIGTSTP);\n      (void) cur; }\n"),
+                                   ("    _mask_signals (SIG_BLOCK);\n\n    /*\n     *   Initialize rcmd modules",
+                                    "    { sigset_t cur; pthread_sigmask (SIG_BLOCK, NULL, &cur);\n      if (sigismember (&cur, SIGINT)) sigint_terminates = false; }\n"
+                                    "    _mask_signals (SIG_BLOCK);\n\n    /*\n     *   Initialize rcmd modules")],
+    # dsh() makes the inherited disposition explicit: an ignored ^Z stays ignored (the sigwait loop drops it)
+    "m35-ignored-tstp-dropped": [("        case SIGTSTP:\n            _handle_sigtstp (last_intr);",
+                                  "        case SIGTSTP:\n            { struct sigaction sa; sigaction (SIGTSTP, NULL, &sa); if (sa.sa_handler == SIG_IGN) break; }\n"
+                                  "            _handle_sigtstp (last_intr);")],
 }
 ids = sys.argv[2:] or sorted(MUTS)
 for mid in ids:
@@ -63,13 +87,14 @@ for mid in ids:
     shutil.copy("/repo/config.h", dst)
     for d in ("pdsh", "common", "modules"):
         subprocess.run(["cp", "-a", "/repo/src/" + d, dst + "/src/"], check=True)
-    p = dst + "/src/pdsh/dsh.c"
-    s = open(p).read()
-    for a, b in MUTS[mid]:
+    for m in MUTS[mid]:
+        f, a, b = m if len(m) == 3 else ("src/pdsh/dsh.c",) + tuple(m)
+        p = dst + "/" + f
+        s = open(p).read()
         if s.count(a) != 1:
             print(mid, "PATTERN COUNT", s.count(a), repr(a[:50]))
         s = s.replace(a, b)
-    open(p, "w").write(s)
+        open(p, "w").write(s)
     r = subprocess.run(["./check.py", "C20", "--tier", "quick"], cwd=W, env=dict(os.environ, VERIF_REPO=dst, VERIF_SEED="1"),
                        stdout=subprocess.PIPE, stderr=subprocess.STDOUT)
     out = r.stdout.decode()
